@@ -44,14 +44,17 @@ func (pkg *RowFmtPackage) ReadFrom(ch BytesChannel) error {
 		return ErrNotEnoughBytes
 	}
 	readBytes := 2
-	pkg.Fmts = make([]FieldFmt, colCount)
+	// The column count is sent by the server - let the slice grow with
+	// the columns that are actually read instead of allocating it up
+	// front.
+	pkg.Fmts = []FieldFmt{}
 
 	for i := 0; i < int(colCount); i++ {
 		fieldFmt, n, err := pkg.ReadFromField(ch)
 		if err != nil {
 			return fmt.Errorf("error reading column: %w", err)
 		}
-		pkg.Fmts[i] = fieldFmt
+		pkg.Fmts = append(pkg.Fmts, fieldFmt)
 		readBytes += n
 	}
 
